@@ -353,6 +353,11 @@ class Effects:
                     r = self.receiver_state(x.value, f)
                     if r:
                         out.append(Write(f, x.lineno, norm(x), r, 'store'))
+                elif isinstance(x, ast.AugAssign) and isinstance(x.op, (ast.Add, ast.BitOr)) and isinstance(x.target, ast.Name):
+                    # `alias += [...]` extends the aliased list / dict in place
+                    r = self._local_alias(x.target.id, f)
+                    if r:
+                        out.append(Write(f, x.lineno, norm(x)[:90], r, 'in-place += on an alias of'))
                 elif isinstance(x, ast.Call) and isinstance(x.func, ast.Attribute) and x.func.attr in MUTATORS:
                     # mutation of a container: receiver is the container expression
                     recv = x.func.value
